@@ -7,6 +7,7 @@ import (
 	"go/types"
 	"os"
 	"sort"
+	"strings"
 
 	"golang.org/x/tools/go/ssa"
 )
@@ -171,7 +172,13 @@ func (p *Prog) ApplyAnchors(path string) []string {
 			if used[f] || !sameSig(sigOf(f), e.Sig) {
 				continue
 			}
-			s := jaccard(e.Feats, featsOf(f))
+			ff := featsOf(f)
+			s := jaccard(e.Feats, ff)
+			// renaming a field (or a type) changes every f: feature at once: what the function says and calls
+			// (string constants, callees) identifies it as well
+			if s2 := jaccard(semanticFeats(e.Feats), semanticFeats(ff)); s2 > s && len(semanticFeats(e.Feats)) > 0 {
+				s = s2
+			}
 			if s > best {
 				second, best, bestF = best, s, f
 			} else if s > second {
@@ -185,6 +192,17 @@ func (p *Prog) ApplyAnchors(path string) []string {
 		}
 	}
 	return notes
+}
+
+// semanticFeats: the features that survive a rename of fields and types (string constants, callees, invoked methods).
+func semanticFeats(fs []string) []string {
+	var out []string
+	for _, f := range fs {
+		if strings.HasPrefix(f, "s:") || strings.HasPrefix(f, "c:") || strings.HasPrefix(f, "i:") {
+			out = append(out, f)
+		}
+	}
+	return out
 }
 
 // BaseName is f's own name as the rules know it (the recorded name for a renamed function).
